@@ -398,6 +398,24 @@ Proof. unfold bk_cmp. intros l H.
   { apply Hinj; [left; reflexivity|left; reflexivity|]. unfold name_key. congruence. }
   subst b. f_equal. apply IH; auto; try (intros; apply Hinj; auto; right; assumption). Qed.
 
+Lemma lidx_eqb_eq a : forall b, lidx_eqb a b = true <-> a = b.
+Proof. induction a as [|x a IH]; intros [|y b]; simpl; try (split; congruence).
+  rewrite andb_true_iff, index_eqb_eq, IH. split; [intros [-> ->]; reflexivity|intros H; inversion H; auto]. Qed.
+Lemma lidx_eqb_refl a : lidx_eqb a a = true.
+Proof. apply lidx_eqb_eq; reflexivity. Qed.
+Lemma bk_cmp_refl u : bk_cmp u u = Eq.
+Proof. unfold bk_cmp. rewrite !lex_cmp_refl. reflexivity. Qed.
+Lemma need_swap_asym u l : need_bra_ket_swap l u = true -> need_bra_ket_swap u l = false.
+Proof. unfold need_bra_ket_swap. rewrite (bk_cmp_antisym l u). destruct (bk_cmp l u); simpl; congruence. Qed.
+Lemma need_swap_refl u : need_bra_ket_swap u u = false.
+Proof. unfold need_bra_ket_swap. rewrite bk_cmp_refl. reflexivity. Qed.
+Lemma diag_zero_true bks u l : diag_zero bks u l = true <-> (bks = (-1)%Z /\ u = l).
+Proof. unfold diag_zero. rewrite andb_true_iff, Z.eqb_eq, lidx_eqb_eq. tauto. Qed.
+(* the zero test cannot fire when a swap would have been needed either way *)
+Lemma swap_not_diag bks u l : need_bra_ket_swap u l = true -> diag_zero bks l u = false.
+Proof. intros H. destruct (diag_zero bks l u) eqn:E; [|reflexivity].
+  apply diag_zero_true in E. destruct E as [_ ->]. rewrite need_swap_refl in H. discriminate. Qed.
+
 (* ========================================================================= *)
 (* 8. value soundness of the constructors                                     *)
 
@@ -482,6 +500,14 @@ Proof. intros Hk Hb Hlen. unfold tens_val; simpl.
   - rewrite (sr_bk_sym S T R k n _ _ Hk Hl). ring.
   - rewrite (sr_bk_anti S T R k n _ _ Hk Hl). ring. Qed.
 
+(* a bra-ket antisymmetric tensor with identical bra and ket vanishes *)
+Lemma braket_diag_zero_same k n u r : two_regular -> inner_sym k <> None ->
+  tens_val S T r (Tens k n (-1)%Z u u) = 0.
+Proof. intros H2 Hk. apply H2.
+  pose proof (tens_val_braket k n (-1)%Z u u r Hk eq_refl eq_refl) as E. simpl in E.
+  set (x := tens_val S T r (Tens k n (-1)%Z u u)) in *. clearbody x.
+  transitivity (x + (- (1)) * x); [f_equal; exact E|ring]. Qed.
+
 (* what a constructor result claims about the raw tensor *)
 Definition tres_sound (r : env) (raw : tens) (res : tres) : Prop :=
   match res with
@@ -510,7 +536,10 @@ Proof. intros Ek. unfold mk_anti.
   - rewrite H1. rewrite (tens_val_braket k n bks u' l' r) by (auto; congruence).
     destruct (Z.eqb bks (-1)); rewrite !Nat.odd_add; simpl;
       destruct (Nat.odd nu), (Nat.odd nl); simpl; ring.
-  - rewrite Nat.odd_add; exact H1. Qed.
+  - destruct (diag_zero bks u' l') eqn:Ed; simpl.
+    + apply diag_zero_true in Ed. destruct Ed as [-> ->]. intros H2. rewrite H1.
+      rewrite (braket_diag_zero_same k n l' r H2) by congruence. ring.
+    + rewrite Nat.odd_add; exact H1. Qed.
 
 Lemma mk_sym_sound k n bks u l r : inner_sym k = Some false ->
   tres_sound r (Tens k n bks u l) (mk_sym k n bks u l).
@@ -522,8 +551,11 @@ Proof. intros Ek. unfold mk_sym.
   destruct (Z.eqb bks 0); [simpl; exact H1|].
   destruct (bks_valid bks) eqn:Eb; simpl; [|exact I].
   destruct (Nat.eqb (length u') (length l')) eqn:Elen; simpl; [|exact I]. apply Nat.eqb_eq in Elen.
-  destruct (need_bra_ket_swap u' l'); simpl; [|exact H1].
-  rewrite H1. rewrite (tens_val_braket k n bks u' l' r) by (auto; congruence). ring. Qed.
+  destruct (need_bra_ket_swap u' l'); simpl.
+  - rewrite H1. rewrite (tens_val_braket k n bks u' l' r) by (auto; congruence). ring.
+  - destruct (diag_zero bks u' l') eqn:Ed; simpl; [|exact H1].
+    apply diag_zero_true in Ed. destruct Ed as [-> Ed]. rewrite Ed in *. intros H2. rewrite H1.
+    rewrite (braket_diag_zero_same k n l' r H2) by congruence. ring. Qed.
 
 Theorem mk_tensor_sound k n bks u l r :
   tres_sound r (Tens k n bks u l) (mk_tensor k n bks u l).
@@ -540,11 +572,7 @@ Lemma braket_diag_zero k n u l r : two_regular -> inner_sym k <> None -> Permuta
 Proof. intros H2 Hk HP. assert (Ek : exists s, inner_sym k = Some s) by (destruct (inner_sym k) as [s|]; [exists s; reflexivity|congruence]). destruct Ek as [s Ek].
   destruct (Permutation_PermPar _ _ (Permutation_sym HP)) as [q Hq].
   rewrite (tens_val_perm k n (-1)%Z s false q u u l u r Ek (PermPar_refl u) Hq).
-  assert (Hz : tens_val S T r (Tens k n (-1)%Z u u) = 0).
-  { apply H2. pose proof (tens_val_braket k n (-1)%Z u u r Hk eq_refl eq_refl) as E. simpl in E.
-    set (x := tens_val S T r (Tens k n (-1)%Z u u)) in *. clearbody x.
-    transitivity (x + (- (1)) * x); [f_equal; exact E|ring]. }
-  rewrite Hz; ring. Qed.
+  rewrite (braket_diag_zero_same k n u r H2 Hk). ring. Qed.
 
 End Sound.
 
@@ -581,7 +609,8 @@ Proof. intros Hp Hq. unfold mk_anti.
   destruct (need_bra_ket_swap u' l'); simpl.
   - destruct (Z.eqb bks (-1)); rewrite !Nat.odd_add, Hnu, Hnl; simpl;
       destruct p, q, (Nat.odd nu), (Nat.odd nl); reflexivity.
-  - rewrite !Nat.odd_add, Hnu, Hnl; destruct p, q, (Nat.odd nu), (Nat.odd nl); reflexivity. Qed.
+  - destruct (diag_zero bks u' l'); [reflexivity|].
+    rewrite !Nat.odd_add, Hnu, Hnl; destruct p, q, (Nat.odd nu), (Nat.odd nl); reflexivity. Qed.
 
 Theorem mk_sym_orbit k n bks u1 u2 l1 l2 : Permutation u1 u2 -> Permutation l1 l2 ->
   mk_sym k n bks u2 l2 = mk_sym k n bks u1 l1.
@@ -609,21 +638,42 @@ Corollary mk_anti_transpose_lower k n bks u l1 a b l2 :
 Proof. apply (mk_anti_orbit k n bks false true); [apply PermPar_refl|].
   induction l1; simpl; constructor; auto. Qed.
 
-(* zero exactly when an antisymmetric group holds a repeated index *)
-Theorem mk_anti_zero_iff k n bks u l : mk_anti k n bks u l = TZero <-> (~ NoDup u \/ ~ NoDup l).
+(* zero exactly when an antisymmetric group holds a repeated index, or the
+   tensor is bra-ket antisymmetric and bra and ket hold the same indices *)
+Theorem mk_anti_zero_iff k n bks u l : mk_anti k n bks u l = TZero <->
+  (~ NoDup u \/ ~ NoDup l \/ (bks = (-1)%Z /\ Permutation u l)).
 Proof. unfold mk_anti. pose proof (bubble_spec u) as Hu. pose proof (bubble_spec l) as Hl.
   destruct (bubble u) as [u' nu| |]; [| |contradiction].
   2:{ split; auto. }
   destruct (bubble l) as [l' nl| |]; [| |contradiction].
   2:{ split; auto. }
-  destruct Hu as (_ & _ & _ & Hnu). destruct Hl as (_ & _ & _ & Hnl).
-  split; [|tauto]. intros H.
-  destruct (Z.eqb bks 0); [discriminate|]. destruct (negb (bks_valid bks)); [discriminate|].
-  destruct (negb (Nat.eqb (length u') (length l'))); [discriminate|].
-  destruct (need_bra_ket_swap u' l'); discriminate. Qed.
-Theorem mk_sym_never_zero k n bks u l : mk_sym k n bks u l <> TZero.
-Proof. unfold mk_sym. destruct (Z.eqb bks 0); [discriminate|]. destruct (negb (bks_valid bks)); [discriminate|].
-  destruct (negb (Nat.eqb _ _)); [discriminate|]. destruct (need_bra_ket_swap _ _); discriminate. Qed.
+  destruct Hu as (HPu & Hsu & _ & Hnu). destruct Hl as (HPl & Hsl & _ & Hnl).
+  split.
+  - intros H. right; right.
+    destruct (Z.eqb bks 0); [discriminate|]. destruct (negb (bks_valid bks)); [discriminate|].
+    destruct (negb (Nat.eqb (length u') (length l'))); [discriminate|].
+    destruct (need_bra_ket_swap u' l'); [discriminate|].
+    destruct (diag_zero bks u' l') eqn:Ed; [|discriminate].
+    apply diag_zero_true in Ed. destruct Ed as [-> Ed]. split; [reflexivity|].
+    rewrite HPu, HPl, Ed. reflexivity.
+  - intros [H|[H|[-> HP]]]; try contradiction.
+    assert (u' = l').
+    { apply ssorted_unique; auto. rewrite <- HPu, <- HPl. exact HP. }
+    subst l'. simpl. rewrite Nat.eqb_refl, need_swap_refl. simpl.
+    unfold diag_zero. rewrite lidx_eqb_refl. reflexivity. Qed.
+
+Theorem mk_sym_zero_iff k n bks u l : mk_sym k n bks u l = TZero <->
+  (bks = (-1)%Z /\ Permutation u l).
+Proof. unfold mk_sym.
+  pose proof (ksort_perm idx_key u) as HPu. pose proof (ksort_perm idx_key l) as HPl.
+  split.
+  - destruct (Z.eqb bks 0); [discriminate|]. destruct (negb (bks_valid bks)); [discriminate|].
+    destruct (negb (Nat.eqb _ _)); [discriminate|]. destruct (need_bra_ket_swap _ _); [discriminate|].
+    destruct (diag_zero bks (ksort idx_key u) (ksort idx_key l)) eqn:Ed; [|discriminate].
+    apply diag_zero_true in Ed. destruct Ed as [-> Ed]. intros _. split; [reflexivity|].
+    rewrite HPu, HPl, Ed. reflexivity.
+  - intros [-> HP]. rewrite (ksort_idx_perm_eq _ _ HP). simpl.
+    rewrite Nat.eqb_refl, need_swap_refl. simpl. unfold diag_zero. rewrite lidx_eqb_refl. reflexivity. Qed.
 
 (* ---- the bra-ket swap ---- *)
 Lemma bks_valid_cases bks : bks_valid bks = true -> bks = 1%Z \/ bks = (-1)%Z.
@@ -634,9 +684,9 @@ Proof. intros Hinj E. apply bk_cmp_eq; [exact E|]. intros a b Ha Hb.
   apply Hinj; apply in_or_app; auto. Qed.
 
 Theorem mk_anti_braket k n bks u l : bks_valid bks = true -> length u = length l ->
-  names_inj (u ++ l) -> (bks = (-1)%Z -> ~ Permutation u l) ->
+  names_inj (u ++ l) ->
   mk_anti k n bks l u = tres_neg (Z.eqb bks (-1)) (mk_anti k n bks u l).
-Proof. intros Hb Hlen Hinj Hdiag. unfold mk_anti.
+Proof. intros Hb Hlen Hinj. unfold mk_anti.
   pose proof (bubble_spec u) as Hu. pose proof (bubble_spec l) as Hl.
   destruct (bubble u) as [u' nu| |] eqn:Eu; [| |contradiction].
   2:{ destruct (bubble l); [reflexivity|reflexivity|contradiction]. }
@@ -647,46 +697,52 @@ Proof. intros Hb Hlen Hinj Hdiag. unfold mk_anti.
   { rewrite <- (Permutation_length HPu), <- (Permutation_length HPl). exact Hlen. }
   assert (E0 : Z.eqb bks 0 = false) by (destruct (bks_valid_cases _ Hb); subst; reflexivity).
   rewrite E0, Hb. simpl. rewrite Hlen', Nat.eqb_refl. simpl.
-  unfold need_bra_ket_swap. rewrite (bk_cmp_antisym u' l').
-  destruct (bk_cmp u' l') eqn:Ec; simpl.
-  - assert (u' = l').
-    { apply braket_eq_case; [|exact Ec]. eapply names_inj_perm; [|exact Hinj].
-      apply Permutation_app; assumption. }
-    subst l'. destruct (bks_valid_cases _ Hb); subst bks; simpl.
-    + rewrite (Nat.add_comm nl nu). destruct (Nat.odd (nu + nl)); reflexivity.
-    + exfalso. apply Hdiag; [reflexivity|]. rewrite HPu. symmetry. exact HPl.
-  - destruct (Z.eqb bks (-1)); rewrite !Nat.odd_add; simpl;
+  destruct (need_bra_ket_swap u' l') eqn:N1; destruct (need_bra_ket_swap l' u') eqn:N2.
+  - rewrite (need_swap_asym _ _ N1) in N2. discriminate.
+  - rewrite (swap_not_diag bks _ _ N1).
+    destruct (Z.eqb bks (-1)); rewrite !Nat.odd_add; simpl;
       destruct (Nat.odd nu), (Nat.odd nl); reflexivity.
-  - destruct (Z.eqb bks (-1)); rewrite !Nat.odd_add; simpl;
-      destruct (Nat.odd nu), (Nat.odd nl); reflexivity. Qed.
+  - rewrite (swap_not_diag bks _ _ N2).
+    destruct (Z.eqb bks (-1)); rewrite !Nat.odd_add; simpl;
+      destruct (Nat.odd nu), (Nat.odd nl); reflexivity.
+  - assert (u' = l').
+    { apply braket_eq_case.
+      - eapply names_inj_perm; [|exact Hinj]. apply Permutation_app; assumption.
+      - unfold need_bra_ket_swap in N1, N2. rewrite (bk_cmp_antisym u' l') in N2.
+        destruct (bk_cmp u' l'); simpl in *; congruence. }
+    subst l'. unfold diag_zero. rewrite lidx_eqb_refl.
+    destruct (bks_valid_cases _ Hb); subst bks; simpl; [|reflexivity].
+    rewrite (Nat.add_comm nl nu). destruct (Nat.odd (nu + nl)); reflexivity. Qed.
 
 Theorem mk_sym_braket k n bks u l : bks_valid bks = true -> length u = length l ->
-  names_inj (u ++ l) -> (bks = (-1)%Z -> ~ Permutation u l) ->
+  names_inj (u ++ l) ->
   mk_sym k n bks l u = tres_neg (Z.eqb bks (-1)) (mk_sym k n bks u l).
-Proof. intros Hb Hlen Hinj Hdiag. unfold mk_sym.
+Proof. intros Hb Hlen Hinj. unfold mk_sym.
   pose proof (ksort_perm idx_key u) as HPu. pose proof (ksort_perm idx_key l) as HPl.
   set (u' := ksort idx_key u) in *. set (l' := ksort idx_key l) in *.
   assert (Hlen' : length u' = length l').
   { rewrite <- (Permutation_length HPu), <- (Permutation_length HPl). exact Hlen. }
   assert (E0 : Z.eqb bks 0 = false) by (destruct (bks_valid_cases _ Hb); subst; reflexivity).
   rewrite E0, Hb. simpl. rewrite Hlen', Nat.eqb_refl. simpl.
-  unfold need_bra_ket_swap. rewrite (bk_cmp_antisym u' l').
-  destruct (bk_cmp u' l') eqn:Ec; simpl.
-  - assert (u' = l').
-    { apply braket_eq_case; [|exact Ec]. eapply names_inj_perm; [|exact Hinj].
-      apply Permutation_app; assumption. }
-    destruct (bks_valid_cases _ Hb); subst bks; simpl.
-    + congruence.
-    + exfalso. apply Hdiag; [reflexivity|]. rewrite HPu, HPl. rewrite H. reflexivity.
-  - destruct (Z.eqb bks (-1)); reflexivity.
-  - destruct (Z.eqb bks (-1)); reflexivity. Qed.
+  destruct (need_bra_ket_swap u' l') eqn:N1; destruct (need_bra_ket_swap l' u') eqn:N2.
+  - rewrite (need_swap_asym _ _ N1) in N2. discriminate.
+  - rewrite (swap_not_diag bks _ _ N1). destruct (Z.eqb bks (-1)); reflexivity.
+  - rewrite (swap_not_diag bks _ _ N2). destruct (Z.eqb bks (-1)); reflexivity.
+  - assert (E : u' = l').
+    { apply braket_eq_case.
+      - eapply names_inj_perm; [|exact Hinj]. apply Permutation_app; assumption.
+      - unfold need_bra_ket_swap in N1, N2. rewrite (bk_cmp_antisym u' l') in N2.
+        destruct (bk_cmp u' l'); simpl in *; congruence. }
+    rewrite E. unfold diag_zero. rewrite lidx_eqb_refl.
+    destruct (bks_valid_cases _ Hb); subst bks; simpl; reflexivity. Qed.
 
 (* ========================================================================= *)
 (* 10. separation: equal canonical objects only for related index tuples      *)
 
 Definition shape_ok (sorted : list index -> Prop) k n bks u l (t : tens) : Prop :=
   tkind t = k /\ tname t = n /\ tbks t = bks /\ sorted (tupper t) /\ sorted (tlower t) /\
-  (bks = 0%Z \/ (bks_valid bks = true /\ length (tupper t) = length (tlower t))) /\
+  ((bks = 0%Z \/ (bks_valid bks = true /\ length (tupper t) = length (tlower t))) /\
+   diag_zero bks (tupper t) (tlower t) = false) /\
   ((Permutation u (tupper t) /\ Permutation l (tlower t) /\
      need_bra_ket_swap (tupper t) (tlower t) = false) \/
    (bks_valid bks = true /\ Permutation u (tlower t) /\ Permutation l (tupper t) /\
@@ -703,8 +759,12 @@ Proof. unfold mk_anti, shape_ok. pose proof (bubble_spec u) as Hu. pose proof (b
   { apply Z.eqb_eq in E0. intros H; inversion H; subst; simpl. repeat split; auto. }
   destruct (bks_valid bks) eqn:Eb; simpl; [|discriminate].
   destruct (Nat.eqb (length u') (length l')) eqn:El; simpl; [|discriminate]. apply Nat.eqb_eq in El.
-  destruct (need_bra_ket_swap u' l') eqn:En; intros H; inversion H; subst; simpl; repeat split; auto.
-  right; left. repeat split; auto. Qed.
+  destruct (need_bra_ket_swap u' l') eqn:En.
+  - intros H; inversion H; subst; simpl. repeat split; auto.
+    + apply (swap_not_diag _ _ _ En).
+    + right; left. repeat split; auto.
+  - destruct (diag_zero bks u' l') eqn:Ed; [discriminate|].
+    intros H; inversion H; subst; simpl. repeat split; auto. Qed.
 
 Lemma mk_sym_shape k n bks u l s t : mk_sym k n bks u l = TOk s t ->
   shape_ok wsorted k n bks u l t.
@@ -716,8 +776,12 @@ Proof. unfold mk_sym, shape_ok.
   { apply Z.eqb_eq in E0. intros H; inversion H; subst; simpl. repeat split; auto. }
   destruct (bks_valid bks) eqn:Eb; simpl; [|discriminate].
   destruct (Nat.eqb (length u') (length l')) eqn:El; simpl; [|discriminate]. apply Nat.eqb_eq in El.
-  destruct (need_bra_ket_swap u' l') eqn:En; intros H; inversion H; subst; simpl; repeat split; auto.
-  right; left. repeat split; auto. Qed.
+  destruct (need_bra_ket_swap u' l') eqn:En.
+  - intros H; inversion H; subst; simpl. repeat split; auto.
+    + apply (swap_not_diag _ _ _ En).
+    + right; left. repeat split; auto.
+  - destruct (diag_zero bks u' l') eqn:Ed; [discriminate|].
+    intros H; inversion H; subst; simpl. repeat split; auto. Qed.
 
 Lemma mk_tensor_shape k n bks u l s t : mk_tensor k n bks u l = TOk s t ->
   tkind t = k /\ tname t = n /\ tbks t = bks /\
@@ -753,8 +817,6 @@ Proof. intros H1 H2. apply mk_tensor_shape in H1, H2.
 (* ========================================================================= *)
 (* 11. re-canonicalising a canonical tensor returns it with sign +            *)
 
-Lemma need_swap_asym u l : need_bra_ket_swap l u = true -> need_bra_ket_swap u l = false.
-Proof. unfold need_bra_ket_swap. rewrite (bk_cmp_antisym l u). destruct (bk_cmp l u); simpl; congruence. Qed.
 
 Lemma canonical_no_swap bks tu tl u l :
   (need_bra_ket_swap tu tl = false \/
@@ -769,8 +831,8 @@ Proof. intros H. apply mk_anti_shape in H.
   destruct H as (K & Nm & B & Su & Sl & V & C). destruct t as [k' n' b' tu tl]; simpl in *; subst.
   unfold mk_anti. rewrite (bubble_sorted_id _ Su), (bubble_sorted_id _ Sl). simpl.
   destruct (Z.eqb bks 0) eqn:E0; [reflexivity|].
-  destruct V as [->|(Hb & Hlen)]; [discriminate|]. rewrite Hb, Hlen, Nat.eqb_refl. simpl.
-  rewrite (canonical_no_swap bks tu tl u l); [reflexivity| |intros ->; discriminate].
+  destruct V as [[->|(Hb & Hlen)] Hd]; [discriminate|]. rewrite Hb, Hlen, Nat.eqb_refl. simpl.
+  rewrite (canonical_no_swap bks tu tl u l), Hd; [reflexivity| |intros ->; discriminate].
   destruct C as [(_&_&C)|[C|C]]; auto. Qed.
 
 Theorem mk_sym_idempotent k n bks u l s t : mk_sym k n bks u l = TOk s t ->
@@ -779,8 +841,8 @@ Proof. intros H. apply mk_sym_shape in H.
   destruct H as (K & Nm & B & Su & Sl & V & C). destruct t as [k' n' b' tu tl]; simpl in *; subst.
   unfold mk_sym. rewrite (ksort_idx_id _ Su), (ksort_idx_id _ Sl).
   destruct (Z.eqb bks 0) eqn:E0; [reflexivity|].
-  destruct V as [->|(Hb & Hlen)]; [discriminate|]. rewrite Hb, Hlen, Nat.eqb_refl. simpl.
-  rewrite (canonical_no_swap bks tu tl u l); [reflexivity| |intros ->; discriminate].
+  destruct V as [[->|(Hb & Hlen)] Hd]; [discriminate|]. rewrite Hb, Hlen, Nat.eqb_refl. simpl.
+  rewrite (canonical_no_swap bks tu tl u l), Hd; [reflexivity| |intros ->; discriminate].
   destruct C as [(_&_&C)|[C|C]]; auto. Qed.
 
 Theorem mk_tensor_idempotent k n bks u l s t : mk_tensor k n bks u l = TOk s t ->
@@ -1006,24 +1068,24 @@ Proof. intros H1 H2. destruct x as [| |s' t']; simpl in *; auto.
   - intros H. rewrite H1, (H2 H). ring.
   - rewrite H1, H2. destruct s, s'; simpl; ring. Qed.
 
-(* the tensor stored with flag b0 has the same values as the one stored with
-   the declared bra-ket symmetry b: the model satisfies the assumption (the
-   latter is bra-ket (anti)symmetric by [sym_respects]) *)
-Definition declared_as (name : string) (b0 b : Z) : Prop :=
-  forall k u l, tv T k name b0 u l = tv T k name b u l.
+(* the tensor stored without bra-ket symmetry (flag 0) has the same values as
+   the one stored with the declared bra-ket symmetry b: the model satisfies the
+   assumption (the latter is bra-ket (anti)symmetric by [sym_respects]) *)
+Definition declared_as (name : string) (b : Z) : Prop :=
+  forall k u l, tv T k name 0%Z u l = tv T k name b u l.
 
-Theorem add_bra_ket_sym_sound r t b : declared_as (tname t) (tbks t) b ->
+Theorem add_bra_ket_sym_sound r t b : declared_as (tname t) b ->
   tres_sound S T r t (add_bra_ket_sym t b).
 Proof. intros Hf. unfold add_bra_ket_sym. destruct (Z.eqb b (tbks t)); [simpl; ring|].
-  destruct (Z.eqb (tbks t) 0); [|exact I].
+  destruct (Z.eqb (tbks t) 0) eqn:E0; [|exact I]. apply Z.eqb_eq in E0.
   pose proof (mk_tensor_sound S T R (tkind t) (tname t) b (tupper t) (tlower t) r) as H.
   assert (E : tens_val S T r t = tens_val S T r (Tens (tkind t) (tname t) b (tupper t) (tlower t))).
-  { unfold tens_val; simpl. apply Hf. }
+  { unfold tens_val; simpl. rewrite E0. apply Hf. }
   destruct (mk_tensor _ _ _ _ _); simpl in *; auto; rewrite E; auto. Qed.
 
 Theorem apply_braket_sound r syms antis t :
-  (smem (tname t) syms = true -> declared_as (tname t) (tbks t) 1) ->
-  (smem (tname t) antis = true -> declared_as (tname t) (tbks t) (-1)) ->
+  (smem (tname t) syms = true -> declared_as (tname t) 1) ->
+  (smem (tname t) antis = true -> declared_as (tname t) (-1)) ->
   tres_sound S T r t (apply_braket_obj syms antis t).
 Proof. intros Hf Hg. unfold apply_braket_obj.
   assert (I0 : tres_sound S T r t (TOk false t)) by (simpl; ring).
@@ -1079,38 +1141,48 @@ Proof. rewrite apply_braket_obj_eq. destruct (tkind t) eqn:Ek; intros H;
   try (apply braket_core_attrs in H; destruct H as (A1 & A2 & _); rewrite A1; auto).
   inversion H; subst; auto. Qed.
 
-(* the assumption lists treat an amplitude and its complex conjugate alike *)
-Definition cc_closed (L : list string) (n : string) : Prop := smem (real_name n) L = smem n L.
-
 Lemma make_real_cases t1 s2 t' : make_real_obj t1 = TOk s2 t' ->
-  t' = t1 \/ (tkind t1 <> KNonSym /\ tkind t' = KAmp /\ tname t' = real_name (tname t1) /\ tbks t' = tbks t1).
+  (t' = t1 /\ s2 = false) \/
+  (tkind t1 <> KNonSym /\ tkind t' = KAmp /\ tname t' = real_name (tname t1) /\ tbks t' = tbks t1).
 Proof. unfold make_real_obj.
   destruct (tkind t1) eqn:Ek; destruct (is_t_amplitude (tname t1));
     destruct (String.eqb (real_name (tname t1)) (tname t1)); intros H;
-    try (inversion H; subst; left; reflexivity);
+    try (inversion H; subst; left; split; reflexivity);
     right; apply mk_tensor_attrs in H; destruct H as (B1 & B2 & B3); repeat split; auto; discriminate. Qed.
 
+(* whether make_real renames depends on class and name only *)
+Lemma make_real_stable t2 t3 : tkind t3 = tkind t2 -> tname t3 = tname t2 ->
+  make_real_obj t2 = TOk false t2 -> make_real_obj t3 = TOk false t3.
+Proof. intros K N. unfold make_real_obj. rewrite K, N.
+  destruct (tkind t2); try reflexivity;
+  (destruct (is_t_amplitude (tname t2)); [|reflexivity];
+   destruct (String.eqb (real_name (tname t2)) (tname t2)) eqn:E; [reflexivity|];
+   intros H; apply mk_tensor_attrs in H; destruct H as (_ & H & _);
+   rewrite <- H, String.eqb_refl in E; discriminate). Qed.
+
+(* Applying the assumptions twice equals applying them once.  The only side
+   condition: neither the name nor (real) its complex-conjugate-free form is
+   declared symmetric and antisymmetric at once (the code raises then). *)
 Theorem assume_idempotent (real : bool) syms antis t s t' :
   let syms' := if real then "f"%string :: "V"%string :: syms else syms in
-  smem (tname t) syms' && smem (tname t) antis = false ->
-  (real = true -> cc_closed syms' (tname t) /\ cc_closed antis (tname t)) ->
+  (forall m, m = tname t \/ m = real_name (tname t) -> smem m syms' && smem m antis = false) ->
   assume_obj real syms antis t = TOk s t' -> assume_obj real syms antis t' = TOk false t'.
-Proof. intros syms' Hx Hcc. unfold assume_obj. fold syms'. destruct real.
-  2:{ apply apply_braket_idempotent; exact Hx. }
-  destruct (Hcc eq_refl) as [Hc1 Hc2]. unfold cc_closed in Hc1, Hc2.
+Proof. intros syms' Hx. unfold assume_obj. fold syms'. destruct real.
+  2:{ apply apply_braket_idempotent. apply Hx; left; reflexivity. }
   destruct (apply_braket_obj syms' antis t) as [| |s1 t1] eqn:E1; simpl; try discriminate.
   destruct (make_real_obj t1) as [| |s2 t2] eqn:E2; simpl; try discriminate.
-  intros H; inversion H; subst t2. clear H.
+  destruct (apply_braket_obj syms' antis t2) as [| |s3 t3] eqn:E3; simpl; try discriminate.
+  intros H; inversion H; subst t3. clear H.
+  destruct (apply_braket_attrs _ _ _ _ _ E1) as (K1 & N1).
+  destruct (apply_braket_attrs _ _ _ _ _ E3) as (K3 & N3).
+  assert (Hx2 : smem (tname t2) syms' && smem (tname t2) antis = false).
+  { destruct (make_real_cases _ _ _ E2) as [[-> _]|(_ & _ & B2 & _)].
+    - apply Hx; left; exact N1.
+    - apply Hx; right. rewrite B2, N1. reflexivity. }
+  pose proof (apply_braket_idempotent _ _ _ _ _ Hx2 E3) as I3.
   pose proof (make_real_idempotent _ _ _ E2) as I2.
-  assert (A : apply_braket_obj syms' antis t' = TOk false t').
-  { destruct (apply_braket_attrs _ _ _ _ _ E1) as (K1 & N1).
-    pose proof (apply_braket_idempotent _ _ _ _ _ Hx E1) as I1.
-    destruct (make_real_cases _ _ _ E2) as [->|(Kn & B1 & B2 & B3)]; [exact I1|].
-    rewrite apply_braket_obj_eq, B1. unfold braket_core. rewrite B2, B3, N1, Hc1, Hc2.
-    rewrite apply_braket_obj_eq in E1. rewrite K1 in Kn.
-    destruct (tkind t); try congruence;
-      apply braket_core_attrs in E1; destruct E1 as (_ & _ & C1 & C2); rewrite C1, (C2 Hx); reflexivity. }
-  rewrite A. simpl. rewrite I2. reflexivity. Qed.
+  pose proof (make_real_stable t2 t' K3 N3 I2) as I2'.
+  rewrite I3. simpl. rewrite I2'. simpl. rewrite I3. reflexivity. Qed.
 
 Section AssumeSound2.
 Variable S : Scalar.
@@ -1127,19 +1199,36 @@ Proof. intros H1 H2. destruct x as [| |s t1]; simpl in *; auto.
   - intros H. rewrite H1, (H2 H). ring.
   - rewrite H1, H2. destruct s, s'; simpl; ring. Qed.
 
+(* the tensor model satisfies the assumptions declared for the tensor t: the
+   declared names (also after the cc-renaming) carry the declared bra-ket
+   symmetry, a complex-conjugate amplitude has the values of the amplitude *)
+Definition model_satisfies (real : bool) (syms antis : list string) (t : tens) : Prop :=
+  let syms' := if real then "f"%string :: "V"%string :: syms else syms in
+  (forall m, m = tname t \/ (real = true /\ m = real_name (tname t)) ->
+     (smem m syms' = true -> declared_as S T m 1) /\
+     (smem m antis = true -> declared_as S T m (-1))) /\
+  (real = true -> forall k b u l, tv T KAmp (real_name (tname t)) b u l = tv T k (tname t) b u l).
+
 (* value preservation in every model that satisfies the assumptions *)
 Theorem assume_sound r (real : bool) syms antis t :
-  let syms' := if real then "f"%string :: "V"%string :: syms else syms in
-  (smem (tname t) syms' = true -> declared_as S T (tname t) (tbks t) 1) ->
-  (smem (tname t) antis = true -> declared_as S T (tname t) (tbks t) (-1)) ->
-  (real = true -> forall k b u l, tv T KAmp (real_name (tname t)) b u l = tv T k (tname t) b u l) ->
-  tres_sound S T r t (assume_obj real syms antis t).
-Proof. intros syms' Hf Hg Hc. unfold assume_obj. fold syms'.
-  pose proof (apply_braket_sound S T R r syms' antis t Hf Hg) as H1.
+  model_satisfies real syms antis t -> tres_sound S T r t (assume_obj real syms antis t).
+Proof. intros [Hd Hc]. unfold assume_obj.
+  set (syms' := if real then "f"%string :: "V"%string :: syms else syms) in *.
+  assert (H1 : tres_sound S T r t (apply_braket_obj syms' antis t)).
+  { apply (apply_braket_sound S T R); apply Hd; left; reflexivity. }
   destruct real; [|exact H1].
-  apply tres_bind_sound; [exact H1|]. intros s t1 E.
-  destruct (apply_braket_attrs _ _ _ _ _ E) as (K1 & N1).
-  apply (make_real_sound S T R). rewrite N1. intros; apply Hc; reflexivity. Qed.
+  apply tres_bind_sound.
+  - apply tres_bind_sound; [exact H1|]. intros s t1 E.
+    destruct (apply_braket_attrs _ _ _ _ _ E) as (K1 & N1).
+    apply (make_real_sound S T R). rewrite N1. intros; apply Hc; reflexivity.
+  - intros s t2 E. unfold tres_bind in E.
+    destruct (apply_braket_obj syms' antis t) as [| |s1 t1] eqn:E1; try discriminate.
+    destruct (make_real_obj t1) as [| |s2 t2'] eqn:E2; simpl in E; try discriminate.
+    inversion E; subst t2'. destruct (apply_braket_attrs _ _ _ _ _ E1) as (K1 & N1).
+    apply (apply_braket_sound S T R);
+      (destruct (make_real_cases _ _ _ E2) as [[-> _]|(_ & _ & B2 & _)];
+       [rewrite N1; apply Hd; left; reflexivity
+       |rewrite B2, N1; apply Hd; right; split; reflexivity]). Qed.
 End AssumeSound2.
 
 (* ========================================================================= *)
@@ -1149,23 +1238,28 @@ Definition ix_i := Idx Occ NoSpin 105 0 0.
 Definition ix_j := Idx Occ NoSpin 106 0 0.
 Definition ix_a := Idx Virt NoSpin 97 0 0.
 
-(* bra-ket ANTIsymmetric tensor with the same indices in bra and ket: the code
-   returns +T^{ij}_{ij} for both orderings, although the declared symmetry
-   prescribes T^{ij}_{ij} = -T^{ij}_{ij}, i.e. zero *)
-Theorem mk_anti_braket_diag_refuted :
-  exists k n u l, NoDup u /\ NoDup l /\ names_inj (u ++ l) /\ length u = length l /\
-    (exists t, mk_tensor k n (-1) u l = TOk false t /\ mk_tensor k n (-1) l u = TOk false t) /\
-    mk_tensor k n (-1) l u <> tres_neg true (mk_tensor k n (-1) u l) /\
-    (forall S T, sym_respects S T -> two_regular S -> forall r,
-        tens_val S T r (Tens k n (-1) u l) = k0 S).
-Proof. exists KAnti, "T"%string, [ix_i; ix_j], [ix_i; ix_j].
-  assert (Hnd : NoDup [ix_i; ix_j]).
-  { repeat constructor; simpl; intuition discriminate. }
-  repeat split; auto.
-  - apply uid0_names_inj. simpl. intros a [<-|[<-|[<-|[<-|[]]]]]; reflexivity.
-  - eexists; split; vm_compute; reflexivity.
-  - vm_compute. discriminate.
-  - intros S T R H2 r. apply (braket_diag_zero S T R); auto; discriminate. Qed.
+(* bra-ket ANTIsymmetric tensor with the same indices in bra and ket: every
+   ordering is returned as zero (it was +T^{ij}_{ij} before the repair
+   2521687), and zero is its value in every model *)
+Theorem mk_tensor_braket_diag_zero : forall k n u l, k <> KNonSym -> Permutation u l ->
+  mk_tensor k n (-1) u l = TZero /\
+  (forall S T, sym_respects S T -> two_regular S -> forall r,
+      tens_val S T r (Tens k n (-1) u l) = k0 S).
+Proof. intros k n u l Hk HP. split.
+  - destruct k; simpl; try congruence.
+    + apply mk_anti_zero_iff. right; right; auto.
+    + apply mk_sym_zero_iff. auto.
+    + apply mk_anti_zero_iff. right; right; auto.
+  - intros S T R H2 r. apply (braket_diag_zero S T R); auto.
+    destruct k; simpl; congruence. Qed.
+
+Example braket_diag_zero_example :
+  mk_tensor KAnti "T" (-1) [ix_i; ix_j] [ix_i; ix_j] = TZero /\
+  mk_tensor KAnti "T" (-1) [ix_j; ix_i] [ix_i; ix_j] = TZero /\
+  mk_tensor KSym "T" (-1) [ix_i; ix_a] [ix_a; ix_i] = TZero /\
+  mk_tensor KAnti "T" 1 [ix_i; ix_j] [ix_i; ix_j] =
+    TOk false (Tens KAnti "T" 1 [ix_i; ix_j] [ix_i; ix_j]).
+Proof. repeat split; vm_compute; reflexivity. Qed.
 
 (* two different dummies with the same name (only their hash differs):
    _need_bra_ket_swap does not look at the hash, so the two bra-ket related
@@ -1177,14 +1271,14 @@ Proof. exists KAnti, "d"%string, [Idx Occ NoSpin 105 0 1], [Idx Occ NoSpin 105 0
   split; [repeat constructor; simpl; intuition discriminate|]. split; [reflexivity|].
   vm_compute. discriminate. Qed.
 
-(* Expr(t1cc^a_i, real=True, sym_tensors=["t1"]): the bra-ket symmetry is
-   applied before the complex-conjugate amplitude is renamed, so applying the
-   same assumptions again changes the object *)
-Theorem assume_idempotent_refuted :
-  exists real syms antis t t', assume_obj real syms antis t = TOk false t' /\
-    assume_obj real syms antis t' <> TOk false t'.
-Proof. exists true, ["t1"%string], [], (Tens KAmp "t1cc" 0 [ix_a] [ix_i]).
-  eexists; split; [vm_compute; reflexivity|]. vm_compute. discriminate. Qed.
+(* Expr(t1cc^a_i, real=True, sym_tensors=["t1"]): the renamed amplitude gets
+   the declared symmetry (repair ca056bd), and applying the same assumptions
+   again changes nothing *)
+Example assume_cc_example :
+  let t' := Tens KAmp "t1" 1 [ix_i] [ix_a] in
+  assume_obj true ["t1"%string] [] (Tens KAmp "t1cc" 0 [ix_a] [ix_i]) = TOk false t' /\
+  assume_obj true ["t1"%string] [] t' = TOk false t'.
+Proof. split; vm_compute; reflexivity. Qed.
 
 (* ========================================================================= *)
 (* 16. the hypotheses are satisfiable: rationals, a non-trivial model         *)
@@ -1239,6 +1333,6 @@ Proof. apply Qc_is_canon. reflexivity. Qed.
 (* all hypotheses of the soundness theorems hold together *)
 Example C06_hypotheses_satisfiable :
   sym_respects QcScalar ex_model /\ two_regular QcScalar /\ rng_disjoint (rng ex_model) /\
-  declared_as QcScalar ex_model "f" 0 1.
+  declared_as QcScalar ex_model "f" 1.
 Proof. split; [apply ex_model_respects|]. split; [apply Qc_two_regular|]. split; [apply std_rng_disjoint|].
   intros k u l. reflexivity. Qed.
